@@ -54,7 +54,7 @@ structure State where
   eoseDone : Nat → Bool := fun _ => true           -- the query task has ended
   cancelled : Nat → Bool := fun _ => false         -- `query_task.cancel()` was called
   nextInst : Nat := 0
-  /-- notify tasks of the last fan-out that have not run yet -/
+  /-- notify tasks that have been created and have not run yet -/
   notifyTasks : List (Nat × Nat) := []
   stored : List Nat := []
   subLimit : Nat := 32
@@ -136,8 +136,11 @@ def step (s : State) : Label → Option State
     if !s.isOpen c then none else
     if !accepted then some (say s c (.ok ev false)) else
     if s.stored.contains ev then none else                 -- storage accepts an id once (C06)
-    if !s.notifyTasks.isEmpty then none else               -- `notify_all_connected` first awaits the previous round
-    some (say { s with stored := s.stored ++ [ev], notifyTasks := s.registry.map fun r => (ev, r.inst),
+    -- `notify_all_connected` first awaits the tasks it finds in `_notify_sub_tasks` and then clears that list; two
+    -- handlers that wait at the same time both clear it, the second one forgetting the tasks the first has just
+    -- created — so a new round can start while tasks of an earlier one are still pending.  The machine therefore
+    -- does not require the pending list to be empty: the new tasks are added to whatever is still pending.
+    some (say { s with stored := s.stored ++ [ev], notifyTasks := s.notifyTasks ++ s.registry.map fun r => (ev, r.inst),
                        targeted := s.targeted ++ s.registry.map fun r => (ev, r.inst) } c (.ok ev true))
   | .notify ev i isMatch =>
     if !s.notifyTasks.contains (ev, i) then none else
